@@ -218,7 +218,7 @@ def gen_cases(ctx):
                             v = Fr(0)            # explicitly stored zero
                         ent.append([i, j, pair(v)])
             rng.shuffle(ent)
-            mats.append({'format': rng.choice(['csr', 'csr', 'coo']), 'entries': ent})
+            mats.append({'format': rng.choice(['csr', 'csr', 'coo', 'csr_unsorted']), 'entries': ent})
         if all(m['format'] == 'coo' for m in mats) or rng.random() < 0.5:
             pass
         add({'kind': 'align', 'shape': [nr, nc], 'mats': mats})
